@@ -122,6 +122,21 @@ def dup_jobs(tier):
                        "arbitrary success/failure and an arbitrary option mask")]
 
 
+def servers_update_jobs(tier):
+    """C16 'same ordered server list': the real ares_servers_update (harness shared with C08's flush check)."""
+    J = []
+    for ns, nc in ((0, 1), (1, 1), (1, 2), (2, 1), (2, 2)) + (((2, 3), (3, 2)) if tier != "quick" else ()):
+        J.append(dict(name="c16_servers_update_ns%d_nc%d" % (ns, nc), harness="../C08/servers_flush.c",
+                      defines=["-DNS=%d" % ns, "-DNC=%d" % nc, "-DC16_LISTEQ", "-DKF_servers_reorder_noflush"],
+                      real=["src/lib/ares_library_init.c", "src/lib/dsa/ares_llist.c", "src/lib/str/ares_str.c"],
+                      support=["vp_rt.c", "valloc.c", "memloops.c", "slist_ref.c"], unwind=max(ns, nc) + 3, mem_gb=6,
+                      unwindset=["ares_strlen.0:2", "strlen.0:2", "memcmp.0:6", "memcpy.0:17"], witnesses=["end"],
+                      bound="%d existing servers and a new configuration of %d entries (IPv4 last byte 1..3, ports default|53|54 "
+                            "independently for UDP and TCP), PRIMARY or not, user-specified or system list; ONE "
+                            "ares_servers_update" % (ns, nc)))
+    return J
+
+
 def jobs(tier, seed):
     J = []
     J += userwins_jobs(tier)
@@ -129,6 +144,7 @@ def jobs(tier, seed):
     J += ntop_pton_jobs(tier)
     J += servertext_jobs(tier)
     J += dup_jobs(tier)
+    J += servers_update_jobs(tier)
     if tier == "quick":
         for job in J:   # measured unloaded: every quick job <= 60 s; the machine is shared, leave head room
             job.setdefault("timeout", 480)
